@@ -35,7 +35,7 @@ def budgets(tier):
 _good = st.floats(min_value=0.01, max_value=1.2, allow_nan=False)
 _obs = st.integers(0, 11).flatmap(lambda k: st.sampled_from([0.0, -0.0, float("nan"), 5e-324, 0.0]) if k == 0 else _good)
 
-OPS = ["mask", "unmask", "reveal", "reveal", "reveal", "reveal", "reveal", "saveload", "cli_reveal", "cli_meta"]
+OPS = ["mask", "unmask", "reveal", "reveal", "reveal", "reveal", "reveal", "saveload", "cli_reveal", "cli_reveal", "cli_meta"]
 
 
 @st.composite
@@ -62,7 +62,7 @@ def _case(draw):
         ids = []
         for _ in range(k):
             j = draw(st.integers(0, n_pl + 7))
-            ids.append(j if j < n_pl else (-1 if j == n_pl else 99 if j == n_pl + 1 else (j * 7 + len(ids)) % n_pl))
+            ids.append(j if j < n_pl else (-1 if j == n_pl else draw(st.sampled_from([99, 10, 20, 30])) if j == n_pl + 1 else (j * 7 + len(ids)) % n_pl))
         if op in ("reveal", "cli_reveal") and draw(st.integers(0, 4)) == 0:
             # a long request: the drawn ids plus a run of 10..30 unknown ids near or far outside the screen's range (stale ids)
             base = draw(st.sampled_from([n_pl + 1, 64, 5000, 100000, 2**33, -40]))
@@ -75,6 +75,8 @@ def _case(draw):
         "screen": sc,
         "ops": ops,
         "same_path": draw(st.booleans()),
+        # plate names that look like numbers ("10", "20", ... - barcodes): an unknown plate id such as 10 then equals a plate NAME
+        "numeric_plate_names": draw(st.integers(0, 2)) == 0,
         "set_sel": [draw(st.booleans()) for _ in range(n)],
         "set_vals": [draw(st.floats(min_value=-2, max_value=2, allow_nan=False)) for _ in range(n)],
     }
@@ -160,6 +162,9 @@ def check_case(case):
     from batchie.retrospective import mask_screen, reveal_plates, unmask_screen
 
     sc = case["screen"]
+    if case.get("numeric_plate_names"):
+        ren_ = {p_: str(10 * (i_ + 1)) for i_, p_ in enumerate(sorted({r["p"] for r in sc["rows"]}))}
+        sc = dict(sc, rows=[dict(r, p=ren_[r["p"]]) for r in sc["rows"]], observed=sorted(ren_[p_] for p_ in sc["observed"]))
     rows = sc["rows"]
     n = len(rows)
     tn, td, sn, pn, ob, mask0 = S.arrays(sc)
@@ -216,6 +221,9 @@ def check_case(case):
                 require(meta["n_plates"] == len(model) and meta["size"] == n, "metadata.totals", "metadata totals wrong")
             elif kind in ("reveal", "cli_reveal"):
                 ids = list(op["ids"])
+                if case.get("numeric_plate_names"):
+                    # every unknown id of the request equals the NAME of some plate (10, 20, ...), which is still no plate id
+                    ids = [i if i in id_to_name else 10 * (abs(i) % len(id_to_name) + 1) for i in ids]
                 requested = {id_to_name[i] for i in ids if i in id_to_name}
                 sel = np.array([r["p"] in requested for r in rows], dtype=bool)
                 vals = ob[sel]
